@@ -3,6 +3,8 @@ package checks
 import (
 	"encoding/json"
 	"fmt"
+	"go/token"
+	"go/types"
 	"os"
 	"path/filepath"
 	"sort"
@@ -305,5 +307,98 @@ func runC17(c *Ctx) {
 	// the SIM is compared above as Bcd2Dec(data[8:14]) with the helper kept symbolic: the helper's own contract
 	c.bcd2decRule()
 	R.Require("E3.digits", 2, "")
+	c.sentinelsDistinct("protocol/jt1078", "E6.sentinels", 3)
 	R.Explain = "Packet.Decode is interpreted abstractly once for arbitrary data and an arbitrary (reused) Packet. For every return state the symbolic value of each header field, the body window and the remainder are extracted and compared with the table written from JT/T 1078 table 19, separately for each data type the path condition admits (0..15); error returns are checked against the length/marker conditions under which the standard allows them; plus E1 bounds and E2 history independence; the digit helper behind the SIM field is shown to drop nothing but leading zeros. All obligations are decided for all inputs at once."
+}
+
+// sentinelsDistinct: E3.classify decides which error *variable* each return hands back; that says "too short is
+// reported as too short, unqualified as unqualified" only if the variables hold different values. Every package-level
+// error variable of the package is initialised once, from a source of its own: a call (errors.New …) no other variable
+// is initialised from, or another package's variable no other variable aliases.
+func (c *Ctx) sentinelsDistinct(pkg, rule string, min int) {
+	R := c.R
+	R.Rules[rule] = "the package-level error variables of " + pkg + " are initialised once each, from pairwise different sources (one errors.New call each, or different foreign variables): errors.Is tells the error classes apart"
+	sp := c.P.SSAPkgs[pkg]
+	if sp == nil {
+		for k, v := range c.P.SSAPkgs {
+			if strings.HasSuffix(k, pkg) {
+				sp = v
+			}
+		}
+	}
+	if sp == nil {
+		R.Fatal("%s: package %s not loaded", rule, pkg)
+		return
+	}
+	type src struct {
+		desc string
+		key  interface{}
+	}
+	sources := map[*ssa.Global][]src{}
+	for _, m := range sp.Members {
+		fn, isF := m.(*ssa.Function)
+		if !isF {
+			continue
+		}
+		fns := append([]*ssa.Function{fn}, fn.AnonFuncs...)
+		for _, f := range fns {
+			for _, b := range f.Blocks {
+				for _, ins := range b.Instrs {
+					st, isSt := ins.(*ssa.Store)
+					if !isSt {
+						continue
+					}
+					g, isG := st.Addr.(*ssa.Global)
+					if !isG || g.Pkg != sp || !types.Identical(g.Type().(*types.Pointer).Elem(), types.Universe.Lookup("error").Type()) {
+						continue
+					}
+					v := st.Val
+					for {
+						if mi, ok := v.(*ssa.MakeInterface); ok {
+							v = mi.X
+							continue
+						}
+						if ct, ok := v.(*ssa.ChangeInterface); ok {
+							v = ct.X
+							continue
+						}
+						break
+					}
+					switch x := v.(type) {
+					case *ssa.Call:
+						sources[g] = append(sources[g], src{"the call " + calleeName(&x.Call) + " at " + c.P.RelPos(x.Pos()), x})
+					case *ssa.UnOp:
+						if og, ok := x.X.(*ssa.Global); ok && x.Op == token.MUL {
+							sources[g] = append(sources[g], src{"variable " + og.String(), og})
+						} else {
+							sources[g] = append(sources[g], src{"a computed value", x})
+						}
+					default:
+						sources[g] = append(sources[g], src{fmt.Sprintf("%T", v), v})
+					}
+				}
+			}
+		}
+	}
+	var gs []*ssa.Global
+	for g := range sources {
+		gs = append(gs, g)
+	}
+	sort.Slice(gs, func(i, j int) bool { return gs[i].Name() < gs[j].Name() })
+	owner := map[interface{}]*ssa.Global{}
+	for _, g := range gs {
+		st, d := report.Discharged, ""
+		if len(sources[g]) != 1 {
+			st, d = report.Violated, fmt.Sprintf("%s is assigned at %d places", g.Name(), len(sources[g]))
+		} else if o, dup := owner[sources[g][0].key]; dup {
+			st, d = report.Violated, fmt.Sprintf("%s and %s are both initialised from %s: the two error classes are one value, errors.Is cannot tell them apart", o.Name(), g.Name(), sources[g][0].desc)
+		} else {
+			owner[sources[g][0].key] = g
+		}
+		R.Add(rule, pkg+"."+g.Name(), c.P.RelPos(g.Pos()), st, d)
+	}
+	if len(gs) < min {
+		R.Fatal("%s: only %d package-level error variables found in %s (anchor: %d)", rule, len(gs), pkg, min)
+	}
+	R.Require(rule, min, "")
 }
